@@ -4,6 +4,9 @@
 import Rsactor.Inv.Fifo
 import Rsactor.Inv.Rej
 import Rsactor.Inv.Time
+import Rsactor.Ties.send_paths_shape
+import Rsactor.Ties.timeout_wrappers_shape
+import Rsactor.Ties.lifecycle_arms
 
 namespace Rsactor.Props.C01
 open Rsactor Rsactor.Model Rsactor.Monitor
@@ -83,5 +86,11 @@ example : ∃ s, run? (init 1 {})
      .issue 0 { kind := .tell }, .push 1, .issue 0 { kind := .tell, timeout := some 5 }, .advance 5,
      .timeoutFire 2] = some s ∧ Ev.ret 2 .timeout 5 ∈ s.ev ∧ (s.spec 2).kind = .tell := by
   refine ⟨_, rfl, ?_, ?_⟩ <;> decide
+
+
+/-! ### ties to the source: shape lemmas about the tables regenerated from /repo on every run -/
+-- @tie Rsactor.Ties.send_paths_shape
+-- @tie Rsactor.Ties.timeout_wrappers_shape
+-- @tie Rsactor.Ties.lifecycle_arms
 
 end Rsactor.Props.C01
